@@ -719,7 +719,41 @@ class Body:
                         path.append("*")
                 else:
                     path.append(ps)
-            out.add((root, tuple(path)))
+            out |= self._through_aggregates(root, tuple(path), _depth, _seen)
+        return out
+
+    def _through_aggregates(self, root, path, depth, seen):
+        """(agg, '.field' ...) -> the operand stored in that field of the aggregate"""
+        if root[0] != "agg" or not path or depth > 40:
+            return {(root, path)}
+        rv = self.agg_at(root[1], root[2])
+        rest = list(path)
+        if rest and rest[0].startswith(" as "):
+            if rv.get("variant") != rest[0][4:]:
+                return {(root, path)}
+            rest = rest[1:]
+        if not rest or not rest[0].startswith("."):
+            return {(root, path)}
+        name = rest[0][1:]
+        idx = None
+        if rv.get("kind") == "adt" and name in rv.get("field_names", []):
+            idx = rv["field_names"].index(name)
+        elif name.isdigit() and int(name) < len(rv["fields"]):
+            idx = int(name)
+        if idx is None or idx >= len(rv["fields"]):
+            return {(root, path)}
+        out = set()
+        for r2, p2 in self.resolve(rv["fields"][idx], depth + 1, seen):
+            p2 = list(p2)
+            for e in rest[1:]:
+                if e == "*":
+                    if p2 and p2[-1] == "&":
+                        p2.pop()
+                    else:
+                        p2.append("*")
+                else:
+                    p2.append(e)
+            out |= self._through_aggregates(r2, tuple(p2), depth + 1, seen)
         return out
 
     def _resolve_local(self, l, depth, seen):
